@@ -77,6 +77,8 @@ def run_cases(cases, tmp, tag):
         for i, c in enumerate(cases):
             c = dict(c)
             c["id"] = i + 1
+            for k, dv in (("userSkip", 0), ("ignore", []), ("keyed", False), ("adv", False), ("script", [])):
+                c.setdefault(k, dv)
             f.write(json.dumps(c) + "\n")
     run_vh(["exch-run", "--in", inp, "--out", outp, "--timeout", 20], env=GOENV, timeout=7200)
     return outp
@@ -91,7 +93,7 @@ def oracle(obsfile, cfg, env_extra=None):
 def write_impl_cfg():
     p = os.path.join(SPECS, "Exchange", "OracleImplRun.cfg")
     with open(p, "w") as f:
-        f.write("CONSTANTS MaxN = 99 Dev = %s\nINIT FileInit\nNEXT ImplNext\nINVARIANT JudgeImpl\nCHECK_DEADLOCK FALSE\n" % DEVCODE)
+        f.write("CONSTANTS MaxScript = 0 MaxN = 99 Dev = %s\nINIT FileInit\nNEXT ImplNext\nINVARIANT JudgeImpl\nCHECK_DEADLOCK FALSE\n" % DEVCODE)
     return "OracleImplRun.cfg"
 
 
@@ -135,7 +137,108 @@ def run_budget(pid, tier, seed):
         shutil.rmtree(tmp, ignore_errors=True)
 
 
+def mutate(rng, items, nlabels):
+    """one random mutation of an honest transcript (list of {c, followed, blk})"""
+    items = [dict(x) for x in items]
+    if not items:
+        return [{"c": rng.randint(1, nlabels + 1), "followed": True, "blk": True}]
+    k = rng.randrange(len(items))
+    op = rng.choice(["swap", "dup", "drop", "relabel", "flip", "strip", "attach", "foreign", "append", "truncate"])
+    if op == "swap" and len(items) > 1:
+        j = rng.randrange(len(items))
+        items[k], items[j] = items[j], items[k]
+    elif op == "dup":
+        items.insert(k, dict(items[k]))
+    elif op == "drop":
+        del items[k]
+    elif op == "relabel":
+        items[k]["c"] = rng.randint(1, nlabels + 1)
+    elif op == "flip":
+        items[k]["followed"] = not items[k]["followed"]
+    elif op == "strip":
+        items[k]["blk"] = False
+    elif op == "attach":
+        items[k]["blk"] = True
+    elif op == "foreign":
+        items[k] = {"c": nlabels + 1, "followed": True, "blk": True}
+    elif op == "append":
+        items.append({"c": rng.randint(1, nlabels + 1), "followed": rng.random() < 0.7, "blk": rng.random() < 0.7})
+    elif op == "truncate":
+        items = items[:k]
+    return items
+
+
+def run_adv(pid, tier, seed):
+    """C01: adversarial responder scripts (TLC-enumerated small scope + mutated honest transcripts of larger trees)."""
+    v = Verdict(pid, tier, seed, "model_checking")
+    tmp = tempfile.mkdtemp(prefix="vadv-")
+    try:
+        r = tlc_must_pass(run_tlc("Exchange", "Exchange.tla", "ExchAdv2.cfg" if tier == "quick" else "ExchAdv3.cfg", workers=NCPU, timeout=6000), "Exchange adversary")
+        states, trans = r.distinct, r.generated
+        res = tlc_must_pass(run_tlc("Exchange", "ExchangeCases.tla", "ExchCasesAdv2.cfg", workers=1, timeout=3000), "adv cases")
+        base = [json.loads(x) for x in res.printed()]
+        rng = random.Random(seed)
+        cases = []
+        variants = [(ch, fi, fo) for ch in ("all", "one") for fi in ("full", "failed", "none") for fo in (False, True)]
+        for c in base:
+            picks = variants if tier == "thorough" else rng.sample(variants, 3)
+            for ch, fi, fo in picks:
+                d = dict(c)
+                d.update({"chunk": ch, "final": fi, "forge": fo})
+                cases.append(d)
+        n_enum = len(cases)
+        # honest transcripts of random larger trees, recorded from the real responder, then mutated
+        rcases = random_cases(seed + 5, 150 if tier == "quick" else 2000, 9)
+        for c in rcases:
+            c.update({"userSkip": 0, "ignore": [], "keyed": False, "adv": False, "script": []})
+        honest = run_cases(rcases, tmp, "honest")
+        muts = []
+        for ln in open(honest):
+            rec = json.loads(ln)
+            c, o = rec["case"], rec["obs"]
+            items = [{"c": w["c"], "followed": w["act"] == "p", "blk": w["blk"]} for w in o["wire"]]
+            nlab = max(c["cid"])
+            for _ in range(4 if tier == "quick" else 10):
+                it = items
+                for _ in range(rng.choice([1, 1, 2, 3])):
+                    it = mutate(rng, it, nlab)
+                d = dict(c)
+                d.update({"adv": True, "sr": [], "script": it, "chunk": rng.choice(["all", "one"]),
+                          "final": rng.choice(["full", "failed", "none"]), "forge": rng.random() < 0.5})
+                muts.append(d)
+        cases += muts
+        for c in cases:
+            c.setdefault("userSkip", 0)
+        obsfile = run_cases(cases, tmp, "adv")
+        verdicts, ores = oracle(obsfile, "OracleSound.cfg")
+        states += ores.distinct + res.distinct
+        if len(verdicts) != len(cases):
+            raise Infra("oracle judged %d of %d cases" % (len(verdicts), len(cases)))
+        lines = open(obsfile).read().splitlines()
+        n_nontrivial = 0
+        for ln in lines:
+            o = json.loads(ln)["obs"]
+            if o["delivered"]:
+                n_nontrivial += 1
+        for x in verdicts:
+            if not x["c01"]:
+                rec = json.loads(lines[x["id"] - 1])
+                o = rec["obs"]
+                kind = "bad-hash" if o["badHash"] else "foreign-or-unvisited-write" if set(o["writes"]) - {rec["case"]["cid"][i - 1] for i in o["delivered"]} else "delivery"
+                v.violation("unsound:" + kind, "script %s on case %s: %s" % (json.dumps(rec["case"]["script"]), json.dumps({k: rec["case"][k] for k in ("n", "par", "cid", "sl")}), json.dumps(o)[:400]), rec)
+        cov = {"states": states, "transitions": trans, "traces_validated_against_impl": len(cases),
+               "samples": [json.loads(lines[len(lines) // 3])["case"]], "exhaustive": tier == "thorough",
+               "scripts_enumerated_by_tlc": n_enum, "scripts_mutated_honest": len(muts), "runs_with_some_delivery": n_nontrivial,
+               "rule": "every link tree <= 3 visits x every requestor store x every responder script of <= 2 items over (any label or a foreign block) x (followed?) x (genuine block attached?), "
+                       "x delivery variants (one message / one per item; final full/failed/none; forged bytes under the claimed CID); plus mutated honest transcripts of random trees up to 9 visits"}
+        return v.finish(cov, ["TLC", "blocks reach the requestor through the real v2 codec (CID recomputed from bytes)", "hash of every committed write recomputed by the harness"])
+    finally:
+        shutil.rmtree(tmp, ignore_errors=True)
+
+
 def run(pid, tier, seed):
+    if pid == "C01":
+        return run_adv(pid, tier, seed)
     if pid == "C07":
         return run_budget(pid, tier, seed)
     v = Verdict(pid, tier, seed, "model_checking")
